@@ -17,11 +17,17 @@ THEOREMS = ["GmqttVerif.Broker.will_on_unregister",
             "GmqttVerif.WillTimer.will_published_only_if_due", "GmqttVerif.WillTimer.will_published_at_most_once",
             "GmqttVerif.WillTimer.no_pending_will_while_online", "GmqttVerif.WillTimer.as_is_orphans_will",
             "GmqttVerif.WillTimer.as_is_resumed_will_published", "GmqttVerif.WillTimer.fixed_resumed_will_not_published",
-            "GmqttVerif.WillTimer.code_shape", "GmqttVerif.WillTimer.code_is_repaired",
+            "GmqttVerif.WillTimer.code_shape", "GmqttVerif.WillTimer.will_table_sites", "GmqttVerif.WillTimer.code_is_repaired",
             "GmqttVerif.WillTimer.no_orphan_will_code", "GmqttVerif.WillTimer.will_published_only_if_due_code"]
 EXTRA_MODULES = ["GmqttVerif.Properties.C08Timer"]
 NEEDS_FACTS = ["WillTimer"]
 COMPS = ["broker"]
+
+EXPECTED_WILL_SITES = [
+    "sessionTerminatedLocked: if w, ok := srv.willMessage[clientID]; ok { w.signal(true) }",
+    "registerClient: if w, ok := srv.willMessage[client.opts.ClientID]; ok { w.signal(false) }",
+    "registerClient: if w, ok := srv.willMessage[client.opts.ClientID]; ok { w.signal(true) }",
+    "unregisterClient: srv.willMessage[client.opts.ClientID] = wm"]
 
 def extra(r):
     """the regenerated facts say what the delayed-will goroutine does with srv.willMessage. When it deletes the entry
@@ -32,6 +38,21 @@ def extra(r):
         facts = open(os.path.join(core.LEAN, "GmqttVerif", "Generated", "WillTimer.lean")).read()
     except OSError:
         return
+    # readable form of `will_table_sites`: which statements touch the table of pending wills now
+    ms = re.search(r"def willSites : List String :=\s*\n\s*(\[.*\])", facts)
+    if ms:
+        try:
+            import json
+            sites = json.loads(ms.group(1))
+        except ValueError:
+            sites = None
+        if sites is not None and sites != EXPECTED_WILL_SITES:
+            new = [x for x in sites if x not in EXPECTED_WILL_SITES]
+            gone = [x for x in EXPECTED_WILL_SITES if x not in sites]
+            body = ("# the statements of server/server.go that touch srv.willMessage / signal a will are no longer the four that\n"
+                    "# Model/WillTimer.lean transcribes (theorem WillTimer.will_table_sites)\n"
+                    + "".join(f"# new or changed: {x}\n" for x in new) + "".join(f"# no longer there: {x}\n" for x in gone))
+            r.violation("will-sites", body, False, "the sites that touch the pending-will table changed")
     m = re.search(r"def willGoroutineSteps : List String :=\s*\n\s*(\[.*\])", facts)
     if m and "delete-unconditional" in m.group(1):
         body = ("# the delayed-will goroutine of server/server.go (unregisterClient) removes srv.willMessage[clientID] unconditionally:\n"
